@@ -141,13 +141,85 @@ def ob_scalar_mul():
                           ["point_add -> dlog addition, point_dbl -> dlog doubling (L3 statements: valid for all representations incl. P=Q, P=-Q, infinity)"])
 
 
+def ob_g_mul():
+    """g_mul (fixed base, 8-bit unsigned windows: table row 8*index+m holds [(j+1) 256^(8 index + m)]G)"""
+    import l4
+    def body(stats):
+        c = load_crate("gm-sm2")
+        fn = c.find("g_mul")
+        heads = l4.loop_heads(fn)
+        r_local, idx_local, word_local = local_of(fn, "r"), local_of(fn, "index"), local_of(fn, "scalar_word")
+        cut = l4.Cut()
+        def run(ctx):
+            dom = INT(); ex = Ex(c, dom, ctx)
+            k = limbs(dom, "k", 4)
+            K = val(dom, k)
+            L = [z3.IntVal(0)]
+            for i in range(4):
+                a = z3.Int("L_%d" % (i + 1))
+                ctx.facts.append(a == L[i] + dom.term(k[i]) * (1 << (64 * i)))
+                L.append(a)
+            ex.summaries = group_summaries()
+            def to_jacobi(ex_, argv):
+                # (x, y) must be entries (2j, 2j+1) of one row of SM2P256_PRECOMPUTED: the point [(j+1) 256^row]G
+                # (obligation ground_fixed_base_table: all 32 x 255 entries, exhaustive)
+                rx, ry = argv[0], argv[1]
+                def where(r_):
+                    if not isinstance(r_, Ref) or "SM2P256_PRECOMPUTED" not in (r_.cell.name or "") or len(r_.path) != 2 or not isinstance(r_.path[0], int):
+                        raise Unsupported("to_jacobi argument is not a table entry: %r" % (r_,))
+                    ix = r_.path[1]
+                    return r_.path[0], (dom.term(ix[1]) if isinstance(ix, tuple) else z3.IntVal(ix))
+                (row, ix), (row2, iy) = where(rx), where(ry)
+                if row != row2:
+                    raise Violation("to_jacobi combines coordinates of two different table rows")
+                h = ex_.ctx.fresh("tabj", "int")
+                ex_.ctx.facts.append(z3.Or(ix == 2 * h, ix == 2 * h + 1))         # definition of h = floor(ix / 2)
+                ex_.ctx.oblige("invariant", z3.And(iy == ix + 1, ix >= 0, ix == 2 * h), "table lookup uses entries (2j, 2j+1) of one row", "g_mul")
+                return G((h + 1) * (1 << (8 * row)))
+            ex.summaries["to_jacobi"] = to_jacobi
+            defined = set()
+            def hook(ex_, fn_, frame, visit, bb):
+                if not (l4.live(frame, r_local) and l4.live(frame, idx_local) and l4.live(frame, word_local)):
+                    return
+                rg = l4.conc_range(l4.head_iter(fn, frame, bb))
+                iv = frame[idx_local].val
+                if rg is None or rg[1] != 8 or rg[0] >= 8 or not (isinstance(iv, Sc) and iv.conc()) or not (0 <= iv.v < 4):
+                    return
+                i, m = iv.v, rg[0]
+                word = l4.ld(ex_, frame[word_local].val)
+                if not z3.eq(dom.term(word), dom.term(k[i])):
+                    raise Violation("g_mul: word %d of the loop is not limb %d of the scalar" % (i, i))
+                # the low 8m bits of the limb, as the domain's own remainder term (the same division the code performs next)
+                Lo = dom.term(dom.divmod(word, 8 * m)[1]) if m > 0 else z3.IntVal(0)
+                want = L[i] + Lo * (1 << (64 * i))
+                ctx.oblige("invariant", gval(frame[r_local].val) == want, "before byte %d of limb %d: r = [k mod 2^(%d)]G" % (m, i, 64 * i + 8 * m), "g_mul loop head")
+                cut.arrive(ctx, (i, m))
+                acc = z3.Int("acc_%d_%d" % (i, m))
+                ctx.facts.append(acc == want)
+                frame[r_local].val = G(acc)
+                ctx.pc = []
+            ex.block_hooks = {(fn.name, h): (lambda e_, f_, fr, v, h=h: hook(e_, f_, fr, v, h)) for h in heads}
+            r = ex.run_fn(fn, [Ref(arr_cell(k, "k"))])
+            return dom, L[4], r
+        paths = explore(run, prune=prune_local, max_paths=400)
+        named = {"k%d" % i: z3.Int("k%d" % i) for i in range(4)}
+        nfin = l4.finish_paths(stats, paths, named, lambda ctx_, res: gval(res[2]) == res[1], "g_mul(k) = [k]G (discrete log of the result equals k)")
+        if len(cut.seen) != 32:
+            raise Inconclusive("loop head reached for %d of 32 windows" % len(cut.seen))
+        return {"paths": len(paths), "windows": len(cut.seen), "final_paths": nfin}
+    return run_obligation("L4_sm2_g_mul_all_scalars", ["gm_sm2::p256_ecc::g_mul", "gm_sm2::p256_ecc::to_jacobi"],
+                          "ALL 256-bit scalars; loop cut at the inner head, one inductive step per byte window (32 windows)", body,
+                          ["point_add -> dlog addition (L3)", "table entries -> their discrete logs (obligation ground_fixed_base_table)"])
+
+
 def jobs(tier):
-    return [ob_scalar_mul]
+    return [ob_scalar_mul, ob_g_mul]
 
 
 def replayer(res):
     """native replay of a counterexample scalar: the real scalar_mul on the base point against the reference [k]G"""
-    if not res.name.startswith("L4_sm2_scalar_mul") or not isinstance(res.ce, dict):
+    op = {"L4_sm2_scalar_mul_all_scalars": "sm2_scalar_mul_g", "L4_sm2_g_mul_all_scalars": "sm2_g_mul"}.get(res.name)
+    if op is None or not isinstance(res.ce, dict):
         return None
     try:
         k = sum(int(str(res.ce["k%d" % i]), 16) << (64 * i) for i in range(4))
@@ -156,7 +228,7 @@ def replayer(res):
     sys.path.insert(0, os.path.join(os.path.dirname(os.path.dirname(os.path.abspath(__file__))), "ref"))
     import sm2 as ref
     from core import native
-    got = native("sm2_scalar_mul_g", "%064x" % k)
+    got = native(op, "%064x" % k)
     want = ref.mul(k % ref.n, ref.G) if hasattr(ref, "n") else ref.mul(k % N_SM2, ref.G)
     exp = "ok:inf" if want is None else "ok:" + ref.enc_point(want).hex()
     if got is None:
